@@ -93,6 +93,12 @@ func c05Options(t *rapid.T, words []string) []database.SearchOptions {
 		f := f
 		pool = append(pool, mk(func(o *database.SearchOptions) { o.PipelineBoost = math.Inf(1); f(o) }))
 	}
+	// platform names the engine knows as aliases of one another when they stand in an ENTRY's tags: as
+	// requested platforms each is a request of its own (its fresh answer is what counts)
+	for _, pl := range [][]string{{"darwin"}, {"linux"}, {"unix"}, {"bash"}, {"powershell"}, {"cmd"}, {"MacOS"}, {"macos", "darwin"}, {"darwin", "macos"}, {"linux", "windows"}, {"windows", "linux"}} {
+		pl := pl
+		pool = append(pool, mk(func(o *database.SearchOptions) { o.Platforms = pl }))
+	}
 	pool = append(pool,
 		mk(func(o *database.SearchOptions) { o.PipelineBoost = math.NaN() }),
 		mk(func(o *database.SearchOptions) { o.PipelineBoost = math.NaN(); o.NoCrossPlatform = true }),
